@@ -51,6 +51,17 @@ pub fn run(ctx: &Ctx) -> i32 {
                 break (sp, pp);
             }
         };
+        if switch == 9 && i % 3 == 0 {
+            // hundreds of tags: the unknown direction may sit beyond index 255
+            let k = rng.range(257, 400) as usize;
+            while sp.tags.len() < k {
+                let j = sp.tags.len();
+                sp.tags.push(TagM { from: 0, to: 0, dir: (j % 3) as u8, repeat: 0, color: 0, name: String::new(), ud: None });
+            }
+            for t in sp.tags.iter_mut() {
+                t.ud = None;
+            }
+        }
         let mut v = Variation::none();
         v.storage = rng.chance(1, 2);
         v.ignorable = rng.chance(1, 3);
@@ -148,7 +159,8 @@ pub fn run(ctx: &Ctx) -> i32 {
                 let t = if rng.chance(1, 2) { *rng.pick(&[3u8, 4, 127, 128, 255]) } else { rng.range(3, 255) as u8 };
                 let (mut b, map) = encode(&compile_with(&sp, &mut rng, &v, &palprog));
                 let fields: Vec<_> = map.fields.iter().filter(|f| f.name.ends_with(".dir")).collect();
-                let f = fields[rng.usize_below(fields.len())];
+                // any tag, but favour the last ones when there are many
+                let f = if fields.len() > 256 && rng.chance(2, 3) { fields[256 + rng.usize_below(fields.len() - 256)] } else { fields[rng.usize_below(fields.len())] };
                 b[f.off] = t;
                 desc = format!("animation direction {} at {}", t, f.name);
                 b
